@@ -540,8 +540,10 @@ def oracle(op: str, out: str):
             return "recovered key is not the signer: " + rec[:200]
         Q2 = ref_pub(d + 1 if d + 1 < _Ref.n - 1 else 1)
         other_addr = _net(net).keys.private(d, is_compressed=not comp).address()
+        other_wit = _net(net).address.for_p2pkh_wit(_net(net).keys.private(d, is_compressed=not comp).hash160())
         for what, spec, t in (("another key", "p:%d,%d" % Q2, text), ("the negated key (same x)", "p:%d,%d" % (Q[0], _Ref.p - Q[1]), text),
                               ("the other compression's address", "a:" + tx(other_addr), text),
+                              ("the other compression's segwit address", "a:" + tx(other_wit or other_addr), text),
                               ("another message", qspec, text + " "), ("another message", "a:" + tx(addr), "x" + text)):
             v = impl("msg_verify %s %s %s %s %s" % (net, cfg, spec, tx(sig), tx(t)))
             if v != "ok 0":
